@@ -81,8 +81,8 @@ U_dest ==
 KidVals(n) == {None, IntV(1), Arr(<<>>)} \cup {Arr(<<Ref(a)>>) : a \in 0..n}
                  \cup {Arr(<<Ref(a), Ref(b)>>) : a \in 1..n, b \in 1..n}
 U_kids ==
-    LET cats == {DictB(<<<<"Outlines", Dict(<<>>)>>, <<"Dests", Ref(2)>>>>),
-                 DictB(<<<<"Outlines", Dict(<<>>)>>, <<"Names", DictB(<<<<"Dests", Ref(2)>>>>)>>>>)}
+    LET cats == {DictB(<<<<"Outlines", Dict(<<>>)>>, <<"Dests", Ref(2)>>>>)} \cup
+                (IF N <= 3 THEN {DictB(<<<<"Outlines", Dict(<<>>)>>, <<"Names", DictB(<<<<"Dests", Ref(2)>>>>)>>>>)} ELSE {})
         node == {DictB(<<<<"Kids", k>>>>) : k \in KidVals(N)} \cup {IntV(7)}
     IN {[objs |-> <<c>> \o o, root |-> Ref(1)] : c \in cats, o \in Seqs(N - 1, node)}
 
@@ -123,22 +123,34 @@ U_toc ==
     IN {[objs |-> <<cat, item(t, p), pgs, pg>>, root |-> Ref(1)] :
             t \in {Str(x) : x \in Titles} \cup {IntV(1), Ref(4)}, p \in {Ref(4), IntV(1), Ref(0)}}
 
+\* S10: page tree whose /Count entries are bound to every kind, incl. integers near i64::MAX
+U_pages ==
+    LET cat  == DictB(<<<<"Type", Name("Catalog")>>, <<"Pages", Ref(2)>>>>)
+        cnts == AllVals(4, {}) \cup {None, IntV(Huge), IntV(300)}
+        pg   == DictB(<<<<"Type", Name("Page")>>, <<"Parent", Ref(2)>>>>)
+        pgs(c) == DictB(<<<<"Type", Name("Pages")>>, <<"Kids", Arr(<<>>)>>, <<"Count", c>>, <<"Parent", Ref(2)>>>>)
+        kid  == {pg} \cup {pgs(c) : c \in cnts}
+        root(ks) == DictB(<<<<"Type", Name("Pages")>>, <<"Kids", Arr(ks)>>, <<"Count", IntV(2)>>>>)
+        kss  == {<<Ref(3), Ref(4)>>, <<Ref(3), Ref(3), Ref(4), Ref(3)>>, <<Ref(4), Ref(3), Ref(4)>>}
+    IN {[objs |-> <<cat, root(ks), k3, k4>>, root |-> Ref(1)] : ks \in kss, k3 \in kid, k4 \in kid}
+
 Universe(x) ==
     CASE x = "deref" -> U_deref [] x = "cont" -> U_cont [] x = "rsrc" -> U_rsrc [] x = "links" -> U_links
       [] x = "dest" -> U_dest [] x = "kids" -> U_kids [] x = "names" -> U_names [] x = "img" -> U_img
-      [] x = "toc" -> U_toc
+      [] x = "toc" -> U_toc [] x = "pages" -> U_pages
 
 \* the walker runs made on every document of a scenario: <<walker, argument>>
 Runs(x) ==
     CASE x = "deref" -> {<<"deref", i>> : i \in 0..N}
       [] x = "cont"  -> {<<"cont", 1>>, <<"cont", 2>>}
       [] x = "rsrc"  -> {<<"rsrc", 1>>}
-      [] x = "links" -> {<<"outl", 0>>, <<"toc", 0>>}
+      [] x = "links" -> IF N <= 3 THEN {<<"outl", 0>>, <<"toc", 0>>} ELSE {<<"outl", 0>>}
       [] x = "dest"  -> {<<"outl", 0>>, <<"toc", 0>>}
-      [] x = "kids"  -> {<<"nd", 2>>, <<"outl", 0>>}
-      [] x = "names" -> {<<"nd", 2>>, <<"outl", 0>>}
+      [] x = "kids"  -> {<<"nd", i>> : i \in 2..N} \cup {<<"outl", 0>>}      \* object 1 (the catalog) has no Kids
+      [] x = "names" -> {<<"nd", i>> : i \in 1..3} \cup {<<"outl", 0>>}
       [] x = "img"   -> {<<"img", 1>>}
       [] x = "toc"   -> {<<"toc", 0>>}
+      [] x = "pages" -> {<<"pages", 0>>}
 
 WInit(ww, d, a) ==
     CASE ww = "deref" -> DerefInit(Ref(a))
@@ -148,6 +160,7 @@ WInit(ww, d, a) ==
       [] ww = "outl"  -> OutInit(d)
       [] ww = "toc"   -> OutInit(d)
       [] ww = "img"   -> ImgInit(d, a)
+      [] ww = "pages" -> PgInit(d)
 
 Init ==
     \E x \in Scen : \E d \in Universe(x) : \E r \in Runs(x) :
@@ -155,26 +168,27 @@ Init ==
         /\ s = WInit(r[1], d, r[2])
         /\ steps = 0
 
-Step(ww, f) == /\ w = ww /\ s.pc \notin Final
-               /\ s' = f /\ steps' = steps + 1
-               /\ UNCHANGED <<doc, sc, w, arg>>
+Running(ww) == w = ww /\ s.pc \notin Final
+Advance     == steps' = steps + 1 /\ UNCHANGED <<doc, sc, w, arg>>
 
-StepDeref == Step("deref", DerefStep(doc, s))
-StepCont  == Step("cont",  ContStep(doc, s))
-StepRsrc  == Step("rsrc",  RsrcStep(doc, s))
-StepNd    == Step("nd",    NdStep(doc, s))
-StepOut   == Step("outl",  OutStep(doc, s))
-StepToc   == Step("toc",   TocStep(doc, s))
-StepImg   == Step("img",   ImgStep(doc, s))
+\* one action per walker (top-level disjuncts of Next, so that TLC's coverage names them)
+StepDeref == /\ Running("deref") /\ s' = DerefStep(doc, s) /\ Advance
+StepCont  == /\ Running("cont")  /\ s' = ContStep(doc, s)  /\ Advance
+StepRsrc  == /\ Running("rsrc")  /\ s' = RsrcStep(doc, s)  /\ Advance
+StepNd    == /\ Running("nd")    /\ s' = NdStep(doc, s)    /\ Advance
+StepOut   == /\ Running("outl")  /\ s' = OutStep(doc, s)   /\ Advance
+StepToc   == /\ Running("toc")   /\ s' = TocStep(doc, s)   /\ Advance
+StepImg   == /\ Running("img")   /\ s' = ImgStep(doc, s)   /\ Advance
+StepPg    == /\ Running("pages") /\ s' = PgStep(doc, s)    /\ Advance
 
-Next == StepDeref \/ StepCont \/ StepRsrc \/ StepNd \/ StepOut \/ StepToc \/ StepImg
+Next == StepDeref \/ StepCont \/ StepRsrc \/ StepNd \/ StepOut \/ StepToc \/ StepImg \/ StepPg
 
 Spec == Init /\ [][Next]_vars /\ WF_vars(Next)
 
 -----------------------------------------------------------------------------
 (* what TLC checks *)
 
-PcOK == s.pc \in Final \cup {"run", "nd", "post"}
+PcOK == s.pc \in Final \cup {"run", "nd", "post", "decode"}
 
 \* C13 on the design: every finished run returned a value or an error
 TotalInv == s.pc \in Final => Total(s.pc)
@@ -185,6 +199,7 @@ Bound ==
       [] w = "cont"  -> DerefLimit + 1
       [] w = "rsrc"  -> NObj(doc) + 2
       [] w = "img"   -> SizeDoc(doc)
+      [] w = "pages" -> 2 * NObj(doc) + 2
       [] OTHER       -> 8 * SizeDoc(doc) + 8
 Bounded == steps <= Bound
 
@@ -194,7 +209,7 @@ RsrcDepth == w = "rsrc" => s.depth <= NObj(doc)
 \* liveness: every run finishes
 Terminates == <>(s.pc \in Final)
 
-Result == CASE w = "cont" -> s.out [] w = "rsrc" -> s.ids [] OTHER -> <<>>
+Result == CASE w = "cont" -> s.out [] w = "rsrc" -> s.ids [] w = "pages" -> s.out [] OTHER -> <<>>
 
 EmitInv ==
     (Emit /\ s.pc \in Final) =>
